@@ -214,3 +214,108 @@ class AnyGen:
             rng.shuffle(rest)
             decls = head + rest
         return Grammar(decls)
+
+
+# ---------------------------------------------------------------------------
+# purely syntactic grammar structures (C13): every declaration kind and regex operator
+# ---------------------------------------------------------------------------
+
+SYM_BODIES = ["+", "a b", "if", "'", "\\", "\\'", "<id>", "é→x", "//", "/*", "*/x", ";", ":", "|", "", "  ", "'\\'"]
+IDS = ["a", "b", "expr", "x_1", "tokens", "starts", "Right", "Z9", "part_", "skipper", "T", "r2d2", "e"]
+
+
+class SynGen:
+    def __init__(self, rng: random.Random, max_depth=5):
+        self.rng = rng
+        self.max_depth = max_depth
+
+    def ident(self):
+        return self.rng.choice(IDS)
+
+    def num(self):
+        return self.rng.choice([0, 1, 2, 7, 10, 42, "007", "00"])
+
+    def atom(self):
+        rng = self.rng
+        r = rng.random()
+        if r < 0.30:
+            return name(self.ident())
+        if r < 0.45:
+            return N("sym", v=rng.choice(SYM_BODIES))
+        k = rng.choice(["pred", "pred_t", "action", "assert", "rename", "elide", "marker", "create", "create_n",
+                        "create_nn", "create_w", "commit", "return", "empty"])
+        if k == "pred":
+            return pred(self.num())
+        if k == "pred_t":
+            return pred("t")
+        if k == "action":
+            return action(self.num())
+        if k == "assert":
+            return assertion(self.num())
+        if k == "rename":
+            return rename(self.ident())
+        if k == "elide":
+            return elide()
+        if k == "marker":
+            return marker(self.num())
+        if k == "create":
+            return create(self.num(), self.ident())
+        if k == "create_n":
+            return create(self.num(), None)
+        if k == "create_nn":
+            return create(None, self.ident())
+        if k == "create_w":
+            return create(None, None)
+        if k == "commit":
+            return commit()
+        if k == "return":
+            return ret()
+        return paren()
+
+    def regex(self, depth):
+        rng = self.rng
+        if depth <= 0:
+            return self.atom()
+        r = rng.random()
+        if r < 0.2:
+            return self.atom()
+        if r < 0.4:
+            return concat(*[self.regex(depth - 1) for _ in range(rng.randint(2, 4))])
+        if r < 0.55:
+            return alt(*[self.regex(depth - 1) for _ in range(rng.randint(2, 4))])
+        if r < 0.68:
+            return choice(*[self.regex(depth - 1) for _ in range(rng.randint(2, 3))])
+        if r < 0.76:
+            return star(self.regex(depth - 1))
+        if r < 0.84:
+            return plus(self.regex(depth - 1))
+        if r < 0.92:
+            return opt(self.regex(depth - 1))
+        return paren(self.regex(depth - 1))   # redundant parentheses
+
+    def ref(self):
+        if self.rng.random() < 0.6:
+            return self.ident()
+        from .model import esc_sym
+        return "'" + esc_sym(self.rng.choice(SYM_BODIES)) + "'"
+
+    def grammar(self) -> Grammar:
+        rng = self.rng
+        decls = []
+        for _ in range(rng.randint(1, 8)):
+            k = rng.choice(["token", "rule", "rule", "rule", "start", "right", "skip", "part"])
+            if k == "token":
+                toks = []
+                for _ in range(rng.randint(1, 4)):
+                    toks.append((self.ident(), rng.choice(SYM_BODIES) if rng.random() < 0.5 else None))
+                decls.append(("token", toks))
+            elif k == "rule":
+                rx = None if rng.random() < 0.08 else parenthesize(self.regex(rng.randint(0, self.max_depth)))
+                decls.append(("rule", Rule(self.ident(), rx, rng.random() < 0.2)))
+            elif k == "start":
+                decls.append(("start", self.ident()))
+            elif k in ("right", "skip"):
+                decls.append((k, [self.ref() for _ in range(rng.randint(1, 3))]))
+            else:
+                decls.append(("part", [self.ident() for _ in range(rng.randint(1, 3))]))
+        return Grammar(decls)
